@@ -608,3 +608,12 @@ stage("resample_tv", extra=("step",), params=lambda W: {
   (lambda P, i, p: P.lp.resample(i[0], old=S(P, i[1]), new=p["new"],
                                  order=p["order"]),
    lambda i, p: M.m_resample_tv(i, p["new"], p["order"])))
+
+
+stage("tv_pow3", extra=("param",), params=lambda W: {"n": W.pick("n", [3, 2,
+                                                                     4])})(
+  (lambda P, i, p: ((1 - S(P, i[1]) * P.lf.z ** -1) ** p["n"])(i[0]),
+   lambda i, p: M.m_lockstep(i)))
+stage("tv_pow_inverse", extra=("param",))(
+  (lambda P, i, p: ((1 - S(P, i[1]) * .1 * P.lf.z ** -1) ** -2)(i[0]),
+   lambda i, p: M.m_lockstep(i)))
